@@ -446,6 +446,9 @@ func (st *runState) finishWith(ri *simcheck.RunInfo, sim *simrt.Sim, sys *System
 			}
 			add("C02", "non-rectangular-block", "non-rectangular block for "+blk.Table+" ("+colShape(blk)+")",
 				fmt.Sprintf("INSERT #%d into %s has columns of different lengths: %v", blk.Seq, blk.Table, counts))
+			// C05, last clause: the block is the batch shared with other clients' rows; the server refuses all of it
+			add("C05", "shared-batch-corrupted", "a request left the shared batch of "+blk.Table+" with columns of different lengths",
+				fmt.Sprintf("INSERT #%d into %s has columns of different lengths: %v - ClickHouse rejects the whole block, also the rows other requests had in it", blk.Seq, blk.Table, counts))
 			continue
 		}
 		switch {
